@@ -17,7 +17,7 @@ def engine_repo():
 from harness.engine import VERIF, coq_bad_cases, coq_list, zlit
 
 INFO = {
-    "extra_targets": ["Check/KernelCheck.vo"],
+    "extra_targets": ["Check/KernelCheck.vo", "Check/FloatKernelCheck2.vo"],
     "level": "proof",
     "rule": "(a) the three adapters around USER-DEFINED exact integer costs (n-scaled residual sum of squares / n-scaled squared error at an integer "
             "baseline; range cost max-min) on integer data, p = 1..3: every adapter value must equal the cost difference of the definition exactly "
@@ -419,3 +419,32 @@ def run(ctx):
                     ctx.violation(f"{name} fitted on {tag} gives {np.asarray(got).tolist()} on {[s, e]}, the definition with the parameter as given gives {want.tolist()} "
                                   f"(a non-integer baseline parameter must not be converted to the data's integer dtype)",
                                   {"X": Xi.tolist(), "cut": [s, e], "container": tag, "mean": mu, "var": var}, {"what": "int-data-fixed-param", "scorer": name.split("(")[0]})
+    # ---- the OPERATION ORDER of the CUSUM score on binary64, bit for bit (Check/FloatKernelCheck2.v), and the premise of the refinement theorem
+    # ---- C06_primitive_float_cusum_program_refines_rounding_model on the same cases
+    from harness.floatstreams import fl, flist
+    fcu_terms, fcu_meta = [], []
+    rng_f = np.random.default_rng(ctx.seed + 606)
+    for it in range(ctx.n(60, 500)):
+        n = int(rng_f.integers(3, 60))
+        p = int(rng_f.integers(1, 4))
+        Xf = rng_f.normal(size=(n, p)) * float(rng_f.choice([1.0, 1e-3, 1e4, 37.5])) + float(rng_f.choice([0.0, 1e3, -7.25]))
+        s_ = int(rng_f.integers(0, n - 2))
+        k_ = int(rng_f.integers(s_ + 1, n))
+        e_ = int(rng_f.integers(k_ + 1, n + 1))
+        vals = CUSUM().fit(Xf).evaluate(np.asarray([[s_, k_, e_]]))[0]
+        for j in range(p):
+            fcu_terms.append("{| fcu_xs := %s; fcu_s := %d%%nat; fcu_k := %d%%nat; fcu_e := %d%%nat; fcu_val := %s |}" % (flist(Xf[:, j]), s_, k_, e_, fl(vals[j])))
+            fcu_meta.append({"X_column": Xf[:, j].tolist(), "cut": [s_, k_, e_], "impl_value": float(vals[j]), "column": j})
+        ctx.case({"fcu": it, "n": n, "cut": [s_, k_, e_], "x0": float(Xf[0, 0])}, nontrivial=True)
+        ctx.count("float_kernel", "cusum")
+    fcu_header = ("From Coq Require Import PrimFloat List Arith Bool.\nFrom SK Require Import Lib.Base Check.FloatKernelCheck Check.FloatKernelCheck2 Proofs.FloatKernels2.\n"
+                  "Import ListNotations.\nOpen Scope float_scope.")
+    prem = coq_bad_cases(ctx.cid, fcu_header, "fcu_case", "(fun c => cusum_trace_ok (fcu_xs c) (fcu_s c) (fcu_k c) (fcu_e c))", fcu_terms, shard=120, tag="fcuprem")
+    ctx.notes["float_refinement_premise"] = f"cusum_trace_ok holds on {len(fcu_meta) - len(prem)} of {len(fcu_meta)} cases"
+    if len(prem) > len(fcu_meta) // 10:
+        ctx.mismatch(f"the premise cusum_trace_ok of the float refinement theorem fails on {len(prem)} of {len(fcu_meta)} ordinary cases", {"first": fcu_meta[prem[0]]},
+                     {"what": "float-refinement-premise"})
+    for i in coq_bad_cases(ctx.cid, fcu_header, "fcu_case", "fcu_ok", fcu_terms, shard=120, tag="fcu")[:20]:
+        m = fcu_meta[i]
+        ctx.mismatch(f"CUSUM().evaluate({m['cut']}) = {m['impl_value']!r} is not what the kernel's documented operation order (sequential prefix sums, weights sqrt(na / (n nb)) and "
+                     f"sqrt(nb / (n na)) with integer products, |bw before - aw after|) gives on binary64", m, {"what": "float-operation-order", "kernel": "cusum"})
